@@ -696,8 +696,132 @@ def run_check(prop_name, tier, base_seed, workers=None, max_runs=None,
   nviol = 0
   if total.violations:
     nviol = len(total.violations)
-    first = sorted(total.violations, key=lambda v: [str(x) for x in
-                                                    v["origin"]])[0]
+    ordered = sorted(total.violations, key=lambda v: [str(x) for x in
+                                                      v["origin"]])
+    return _report_violations(prop, tier, base_seed, total, ordered, lines,
+                              nviol, t0, write, quiet)
+
+  wall_s = time.time() - t0
+  if write:
+    write_evidence(prop, tier, base_seed, total, wall_s, nviol)
+  if not quiet:
+    for ln in lines:
+      print(ln)
+    print("PASS property=%s tier=%s seed=%d runs=%d distinct_nontrivial=%d "
+          "steps=%d wall=%.1fs"
+          % (prop.id, tier, base_seed, total.runs, len(total.nontrivial),
+             total.steps, wall_s))
+  return exit_code, total
+
+
+def _isolated_chunk(args):
+  """ Fallback search: every run in its own forked child, so that no state
+  of the code under test survives from one run to the next.  Returns the
+  first violation of the chunk (as the dict _account builds) or None. """
+  (base_seed, start, stop, deadline) = args
+  import pickle
+  prop = _WORKER_PROP
+  known = load_known_findings(prop.id)
+  for index in range(start, stop):
+    if time.time() > deadline:
+      return None
+    rfd, wfd = os.pipe()
+    pid = os.fork()
+    if pid == 0:                                     # the child: one run
+      try:
+        os.close(rfd)
+        out = None
+        try:
+          workload, res = run_from_seed(prop, base_seed, index, False)
+          if res.violation is not None and \
+             match_known(known, res.violation) is None:
+            out = {"origin": ["seed", index], "workload": workload,
+                   "s_log": list(res.s_log),
+                   "violation": res.violation.as_dict(),
+                   "digest": res.digest}
+        except BaseException:
+          out = None
+        with os.fdopen(wfd, "wb") as f:
+          pickle.dump(out, f)
+      finally:
+        os._exit(0)
+    os.close(wfd)
+    with os.fdopen(rfd, "rb") as f:
+      data = f.read()
+    os.waitpid(pid, 0)
+    try:
+      out = pickle.loads(data) if data else None
+    except Exception:
+      out = None
+    if out is not None:
+      return out
+  return None
+
+
+def _isolated_search(prop, base_seed, workers, budget_runs=40000, wall=150.0):
+  deadline = time.time() + wall
+  chunk = 50
+  tasks = [(base_seed, i, min(budget_runs, i + chunk), deadline)
+           for i in range(0, budget_runs, chunk)]
+  ctx = multiprocessing.get_context("fork")
+  pool = ProcessPoolExecutor(max_workers=workers, mp_context=ctx,
+                             initializer=_worker_init, initargs=(prop.id,))
+  found = []
+  try:
+    futs = [pool.submit(_isolated_chunk, t) for t in tasks]
+    for fut in as_completed(futs):
+      try:
+        out = fut.result()
+      except BaseException:
+        continue
+      if out is not None:
+        found.append(out)
+        for other in futs:
+          other.cancel()
+        break
+  finally:
+    pool.shutdown(wait=True, cancel_futures=True)
+  return found
+
+
+def _isolated_search_fresh(prop, base_seed):
+  """ Runs _isolated_search in a fresh interpreter (this process has already
+  executed runs itself - the corpus, shrinking attempts - so children forked
+  from it would inherit whatever state those left behind). """
+  import tempfile
+  fd, out_path = tempfile.mkstemp(prefix="verif-iso-", suffix=".json")
+  os.close(fd)
+  try:
+    env = dict(os.environ)
+    env["VERIF_SEED"] = str(base_seed)
+    cmd = [PYTHON, os.path.join(VERIF_DIR, "check"), prop.id,
+           "--isolated-search", out_path]
+    try:
+      subprocess.run(cmd, env=env, stdout=subprocess.DEVNULL,
+                     stderr=subprocess.DEVNULL, timeout=400)
+    except subprocess.TimeoutExpired:
+      return []
+    try:
+      with open(out_path) as f:
+        return json.load(f)
+    except Exception:
+      return []
+  finally:
+    try:
+      os.remove(out_path)
+    except OSError:
+      pass
+
+
+def _report_violations(prop, tier, base_seed, total, ordered, lines, nviol,
+                       t0, write, quiet, isolated_done=False):
+  """ Minimises and validates the first violation that reproduces.  A run
+  whose violation cannot be reproduced in fresh interpreters depended on
+  state left behind by EARLIER runs of the same worker process (the code
+  under test keeps state between calls): the next candidate is tried, and
+  only when none reproduces is this the machinery's own fault. """
+  last_exc = None
+  for first in ordered[:4]:
     vkey = first["violation"]["class"] + "|" + first["violation"]["signature"]
     final_violation = None
     try:
@@ -728,15 +852,32 @@ def run_check(prop_name, tier, base_seed, workers=None, max_runs=None,
           raise exc
         path = final_violation.path
     except HarnessError as exc:
-      print("HARNESS-ERROR property=%s %s" % (prop.id, exc))
-      return EXIT_HARNESS
+      last_exc = exc
+      lines.append("NOTE: the violation of run %r could not be reproduced in "
+                   "a fresh interpreter (state left by earlier runs of the "
+                   "same process?); trying the next candidate"
+                   % (first["origin"],))
+      continue
     final = _FinalShim(final_violation)
     lines.append("VIOLATION property=%s replay=%s" % (prop.id, path))
     lines.append("  class=%s signature=%s" % (final.violation.klass,
                                               final.violation.signature))
     if final.violation.detail:
       lines.append("  detail: %s" % final.violation.detail[:2000])
-    exit_code = EXIT_VIOLATION
+    break
+  else:
+    if not isolated_done:
+      # none of the candidates reproduces on its own: the code under test
+      # keeps state from one run to the next.  Search again with every run
+      # in a process of its own; what fails there reproduces by construction.
+      lines.append("NOTE: searching again with one process per run")
+      found = _isolated_search_fresh(prop, base_seed)
+      if found:
+        return _report_violations(prop, tier, base_seed, total, found, lines,
+                                  nviol, t0, write, quiet, isolated_done=True)
+    print("HARNESS-ERROR property=%s %s" % (prop.id, last_exc))
+    return EXIT_HARNESS
+  exit_code = EXIT_VIOLATION
 
   wall_s = time.time() - t0
   if write:
@@ -763,6 +904,8 @@ def main(argv):
   ap.add_argument("--workers", type=int)
   ap.add_argument("--no-evidence", action="store_true")
   ap.add_argument("--digests", help="write per-run event digests (self-test)")
+  ap.add_argument("--isolated-search", help="(internal) one process per run; "
+                  "writes the first violation found to this file")
   args = ap.parse_args(argv)
   try:
     base_seed = int(os.environ.get("VERIF_SEED", "0") or 0)
@@ -771,6 +914,14 @@ def main(argv):
   prop_name = args.prop.upper()
   try:
     import_repo()
+    if args.isolated_search:
+      from . import props
+      prop = props.load(prop_name)
+      prop.setup()
+      found = _isolated_search(prop, base_seed, min(16, os.cpu_count() or 1))
+      with open(args.isolated_search, "w") as f:
+        json.dump(found, f)
+      return EXIT_PASS
     if args.replay:
       from . import props
       prop = props.load(prop_name)
